@@ -92,8 +92,10 @@ def hist_to_scenario(hist, sid, mode, source, rnd):
             s["limit"] = st["limit"]
         steps.append(s)
     names = sorted(names)
-    # ids whose "$"-joined text coincides (the delimiter of ManifestNamespace::build_object_id)
-    universe = [list(t) for k in (1, 2, 3) for t in itertools.product(names, repeat=k)]
+    # ids whose "$"-joined text coincides (the delimiter of ManifestNamespace::build_object_id); the pieces of a
+    # name that contains the delimiter are names too
+    pieces = sorted(set(names) | {q for n in names for q in n.split("$") if q})
+    universe = [list(t) for k in (1, 2, 3) for t in itertools.product(pieces, repeat=k)]
     by_text = {}
     for ident in universe:
         by_text.setdefault("$".join(ident), []).append(ident)
@@ -129,7 +131,12 @@ def hist_to_scenario(hist, sid, mode, source, rnd):
 
 def features(hist):
     fs = set()
+    root_tables = 0
     for st in hist:
+        if st["op"] in ("list_tables", "list_ns") and st.get("limit", 0) > 0:
+            fs.add(("paged", st["op"], len(st.get("id", [])), min(root_tables, 3), st["limit"]))
+        if st["op"] in ("create_table", "create_empty_table", "register_table") and st.get("r") == "ok" and len(st.get("id", [])) == 1:
+            root_tables += 1
         ident = st.get("id", [])
         kinds = set()
         for n in ident:
@@ -173,7 +180,73 @@ def pick(hists, cap, rnd):
 
 # ---------------------------------------------------------------------------------------------
 
+def replay_scenarios(prop, scenarios, binary, nshards, tag, mutate=None):
+    """Run scenarios on the real DirectoryNamespace and let Trace_Namespace judge them.
+    Returns (counts, events, [(trace file, bad entry, event)], first events of shard 0)."""
+    wd = vlib.workdir(f"{prop}-{tag}")
+    scn_file = os.path.join(wd, "scenarios.ndjson")
+    with open(scn_file, "w") as f:
+        for sc in scenarios:
+            f.write(json.dumps(sc, ensure_ascii=False) + "\n")
+    scratch = os.path.join(vlib.WORK, f"namespace-scratch-{os.getpid()}-{tag}")
+
+    def shard(k):
+        tf = os.path.join(wd, f"t{k}.ndjson")
+        args = ["--scenarios", scn_file, "--out", tf, "--scratch", f"{scratch}-{k}", "--shard", k, "--shards", nshards]
+        if mutate:
+            args += ["--mutate", mutate]
+        vlib.harness_run(binary, args, timeout=3000)
+        shutil.rmtree(f"{scratch}-{k}", ignore_errors=True)
+        return tf, vlib.tlc_trace(f"{prop}-{tag}-{k}", "Trace_Namespace", TRACE_CFG, tf, timeout=3000, xmx="4g")
+    counts, events, bads, samples = {}, 0, [], []
+    with cf.ThreadPoolExecutor(max_workers=nshards) as ex:
+        for k, (tf, v) in enumerate(ex.map(shard, range(nshards))):
+            if not v["reports"] or not v["accepted"]:
+                raise vlib.ToolError(f"trace validation did not complete: {v['out']}")
+            rep = v["reports"][-1]
+            events += rep["events"]
+            for kk, n in rep["counts"].items():
+                counts[kk] = counts.get(kk, 0) + n
+            lines = open(tf).read().splitlines()
+            for b in rep["bad"]:
+                bads.append((tf, b, json.loads(lines[b[0] - 1])))
+            if k == 0:
+                samples = [json.loads(x) for x in lines[:3]]
+    return counts, events, bads, samples
+
+
+def report_bads(out, bads, by_id, classes, bad_scn):
+    for tf, b, ev in bads:
+        pos, scn, i, opn, inv, dev, what, cause, call = b
+        bad_scn.add(scn)
+        scenario = by_id[scn]
+        stp = json.dumps(ev.get("step", {}), ensure_ascii=False)
+        classes[(inv, dev, what, cause)] = classes.get((inv, dev, what, cause), 0) + 1
+        out.report({"invariant": inv, "deviation": dev},
+                   f"{inv} broken as by {dev}: {what} ({cause}) seen by {call} after step {i} {stp} -> {ev.get('res')} "
+                   f"in {scenario['mode']} mode (scenario {scn}, {scenario['source']})",
+                   {"scenario": scenario, "step": i, "invariant": inv, "deviation": dev, "what": what, "cause": cause,
+                    "call": call, "event": ev})
+
+
+def run_replay(prop, replay):
+    """--replay <file>: rebuild, run the stored scenario, judge it."""
+    case = json.load(open(replay)).get("case", {})
+    scenario = case.get("scenario")
+    if not scenario:
+        raise vlib.ToolError(f"{replay} holds no scenario")
+    out = vlib.Outcome(prop)
+    binary, _ = vlib.harness_build("vh_namespace")
+    _, _, bads, _ = replay_scenarios(prop, [scenario], binary, 1, "replay")
+    report_bads(out, bads, {scenario["id"]: scenario}, {}, set())
+    return out.finish()
+
+
+# ---------------------------------------------------------------------------------------------
+
 def run(prop, tier, replay):
+    if replay:
+        return run_replay(prop, replay)
     t0 = time.time()
     rnd = random.Random(vlib.seed())
     out = vlib.Outcome(prop)
@@ -206,7 +279,7 @@ def run(prop, tier, replay):
     depth = 5 if quick else 7
     fut_gen = pool.submit(vlib.tlc_gen, f"{prop}-asbuilt", "Namespace",
                           cfg("asbuilt", steps=depth, maxlen=2 if quick else 3, view="", invs="INVARIANTS GenPrint", props=""),
-                          "SCN", 1, 1500, "num=300" if quick else "num=4000", "4g")
+                          "SCN", 1, 1500, "num=250" if quick else "num=4000", "4g")
 
     # 3. collect scenarios ------------------------------------------------------------------------------------------
     mc_results = {f: fut_mc[f].result() for f in families}
@@ -228,11 +301,11 @@ def run(prop, tier, replay):
         vals = vlib._printed(open(mc_results[f]["out"]).read(), "SCN")
         if not vals:
             raise vlib.ToolError(f"TLC generated no scenario ({f})")
-        add(vals, 130 if quick else 700, f, "one history per distinct final state of the exhaustive run")
+        add(vals, 100 if quick else 700, f, "one history per distinct final state of the exhaustive run")
     vals, gstats = fut_gen.result()
     if not vals:
         raise vlib.ToolError("TLC generated no scenario (asbuilt simulation)")
-    add(vals, 170 if quick else 2200, "asbuilt-sim", f"seeded simulation of the as-built model, depth {depth}")
+    add(vals, 130 if quick else 2200, "asbuilt-sim", f"seeded simulation of the as-built model, depth {depth}")
     wit = fut_wit.result()
     wits = vlib._printed(open(wit["out"]).read(), "WIT")
     got = {(d, w["inv"]) for w in wits for d in w["devs"]}
@@ -246,24 +319,10 @@ def run(prop, tier, replay):
         scenarios.append(hist_to_scenario(w["hist"], len(scenarios) + 1, w["mode"], f"witness:{w['devs'][0]}:{w['inv']}", rnd))
     phases["scenarios_ready"] = round(time.time() - t0, 1)
 
-    wd = vlib.workdir(f"{prop}-traces")
-    scn_file = os.path.join(wd, "scenarios.ndjson")
-    with open(scn_file, "w") as f:
-        for s in scenarios:
-            f.write(json.dumps(s, ensure_ascii=False) + "\n")
     binary, build_s = fut_build.result()
     phases["built"] = round(time.time() - t0, 1)
-    nshards = 6 if quick else 8
-    scratch = os.path.join(vlib.WORK, f"namespace-scratch-{os.getpid()}")
-
-    def shard(k):
-        tf = os.path.join(wd, f"t{k}.ndjson")
-        vlib.harness_run(binary, ["--scenarios", scn_file, "--out", tf, "--scratch", f"{scratch}-{k}", "--shard", k, "--shards", nshards],
-                         timeout=3000)
-        shutil.rmtree(f"{scratch}-{k}", ignore_errors=True)
-        v = vlib.tlc_trace(f"{prop}-{k}", "Trace_Namespace", TRACE_CFG, tf, timeout=3000, xmx="4g")
-        return tf, v
-    fut_shards = [pool.submit(shard, k) for k in range(nshards)]
+    nshards = 4 if quick else 8
+    counts, events, bads, samples = replay_scenarios(prop, scenarios, binary, nshards, "traces")
 
     # 4. judge ------------------------------------------------------------------------------------------------------
     states = trans = 0
@@ -291,31 +350,8 @@ def run(prop, tier, replay):
                         "wall_s": r["wall_s"], "next_disjunct_coverage": cov, "calls_answered_ok_in_final_histories": took})
     mc_info.append({"family": "witness (as-built deviations, pruned once witnessed)", "distinct": wit.get("distinct"),
                     "generated": wit.get("generated"), "wall_s": wit["wall_s"]})
-    counts, events, bad_scn, samples = {}, 0, set(), []
-    for k, fut in enumerate(fut_shards):
-        tf, v = fut.result()
-        if not v["reports"] or not v["accepted"]:
-            raise vlib.ToolError(f"trace validation did not complete: {v['out']}")
-        rep = v["reports"][-1]
-        events += rep["events"]
-        for kk, n in rep["counts"].items():
-            counts[kk] = counts.get(kk, 0) + n
-        lines = None
-        for b in rep["bad"]:
-            pos, scn, i, opn, inv, what, cause, call = b
-            bad_scn.add(scn)
-            if lines is None:
-                lines = open(tf).read().splitlines()
-            ev = json.loads(lines[pos - 1])
-            scenario = scenarios[scn - 1]
-            stp = json.dumps(ev.get("step", {}), ensure_ascii=False)
-            out.report({"invariant": inv, "class": [what, cause]},
-                       f"{inv}: {what} ({cause}) seen by {call} after step {i} {stp} -> {ev.get('res')} "
-                       f"in {scenario['mode']} mode (scenario {scn}, {scenario['source']})",
-                       {"scenario": scenario, "step": i, "invariant": inv, "what": what, "cause": cause, "call": call, "event": ev})
-        if k == 0:
-            ls = open(tf).read().splitlines()
-            samples = [json.loads(x) for x in ls[:3]]
+    bad_scn, classes = set(), {}
+    report_bads(out, bads, {sc["id"]: sc for sc in scenarios}, classes, bad_scn)
     need = ["create_ns", "drop_ns", "create_table", "create_empty_table", "drop_table", "register_table", "deregister_table",
             "list_tables", "list_ns", "reopen", "dir", "manifest", "dual", "probes_judged", "probes_existing", "paged_listings",
             "special_name_steps", "special_name_accepted", "ok_steps"]
@@ -335,6 +371,8 @@ def run(prop, tier, replay):
                 "step and every probe after it was accepted by Trace_Namespace",
         "exhaustive": False, "exhaustive_note": "the model runs are exhaustive for their bounds; the replayed histories are a sample",
         "histories": {"scenarios": len(scenarios), "accepted": accepted, "events": events, "counts": counts, "generation": gen_info},
+        "judgements_not_accepted": [{"invariant": k[0], "deviation": k[1], "what": k[2], "cause": k[3], "events": n}
+                                    for k, n in sorted(classes.items())],
         "model_runs": mc_info, "as_built_deviation_witnesses": dev_info, "simulation": gstats,
         "harness_build_s": build_s, "phases_s": phases,
     }, time.time() - t0, len(out.violations), assumptions)
